@@ -5,7 +5,7 @@ import subprocess, os
 def run(Ctx, CHECKS):
     os.makedirs(Ctx.BUILD, exist_ok=True)
     # one cargo invocation per workspace package keeps feature sets apart
-    pkgs = [("h_runtime", None)]
+    pkgs = [("h_runtime", None), ("h_loom_arc", None)]
     for pkg, feats in pkgs:
         cmd = ["cargo", "build", "--offline", "--release", "-p", pkg]
         if feats:
